@@ -1,0 +1,6 @@
+//go:build !verif
+
+package service
+
+// verifYield is a no-op unless built with the tag "verif".
+func verifYield(label string) {}
